@@ -19,6 +19,7 @@
 //   kdf <pass> <salt> <rounds>            CCrypter::SetKeyFromPassphrase -> key || iv, or F
 //   encsecret <master key> <secret> <iv32>  EncryptSecret -> ciphertext or F
 //   decsecret <master key> <ciphertext> <iv32>  DecryptSecret -> plaintext or F
+//   rtsecret <master key> <secret> <iv32>   EncryptSecret then DecryptSecret -> ciphertext|plaintext
 #include <drv_common.h>
 #include <algorithm>
 #include <deque>
@@ -310,6 +311,19 @@ std::string bytes_mode(const std::vector<std::string>& w)
         CKeyingMaterial pt;
         if (!DecryptSecret(master, data, iv, pt)) return "F";
         return vd::hex(pt.begin(), pt.end());
+    }
+    if (w[0] == "rtsecret") {   // EncryptSecret then DecryptSecret of the result
+        const auto mk = vd::unhex(w.at(1));
+        const auto data = vd::unhex(w.at(2));
+        const auto ivb = vd::unhex(w.at(3));
+        uint256 iv;
+        std::copy(ivb.begin(), ivb.begin() + std::min<size_t>(32, ivb.size()), iv.begin());
+        CKeyingMaterial master(mk.begin(), mk.end());
+        std::vector<unsigned char> ct;
+        if (!EncryptSecret(master, CKeyingMaterial(data.begin(), data.end()), iv, ct)) return "F";
+        CKeyingMaterial pt;
+        if (!DecryptSecret(master, ct, iv, pt)) return vd::hex(ct) + "|F";
+        return vd::hex(ct) + "|" + vd::hex(pt.begin(), pt.end());
     }
     return "BADCASE";
 }
